@@ -1,0 +1,85 @@
+//go:build verif
+
+/*
+ Licensed to the Apache Software Foundation (ASF) under one
+ or more contributor license agreements.  See the NOTICE file
+ distributed with this work for additional information
+ regarding copyright ownership.  The ASF licenses this file
+ to you under the Apache License, Version 2.0 (the
+ "License"); you may not use this file except in compliance
+ with the License.  You may obtain a copy of the License at
+
+     http://www.apache.org/licenses/LICENSE-2.0
+
+ Unless required by applicable law or agreed to in writing, software
+ distributed under the License is distributed on an "AS IS" BASIS,
+ WITHOUT WARRANTIES OR CONDITIONS OF ANY KIND, either express or implied.
+ See the License for the specific language governing permissions and
+ limitations under the License.
+*/
+
+package scheduler
+
+import (
+	"runtime"
+	"time"
+)
+
+// Verification hooks, only compiled with the "verif" build tag.
+// They call the same functions the production goroutines call, they do not change behaviour.
+
+// VerifScheduleOnce runs one scheduling cycle (one allocation decision per partition).
+func (s *Scheduler) VerifScheduleOnce() bool {
+	return s.clusterContext.schedule()
+}
+
+// VerifQuotaPreemptionOnce triggers quota preemption once and waits (bounded) for the
+// preemption goroutines it started to finish.
+func (s *Scheduler) VerifQuotaPreemptionOnce() bool {
+	s.triggerQuotaPreemption()
+	deadline := time.Now().Add(20 * time.Second)
+	for time.Now().Before(deadline) {
+		busy := false
+		for _, psc := range s.clusterContext.GetPartitionMapClone() {
+			if psc.root.VerifQuotaPreemptionBusy() {
+				busy = true
+			}
+		}
+		if !busy {
+			return true
+		}
+		runtime.Gosched()
+		time.Sleep(50 * time.Microsecond)
+	}
+	return false
+}
+
+// VerifInspectOutstanding runs the outstanding request inspection once.
+func (s *Scheduler) VerifInspectOutstanding() int {
+	n, _ := s.inspectOutstandingRequests()
+	return n
+}
+
+// VerifCounters returns the partition counters: allocations, reservations, placeholder allocations.
+func (pc *PartitionContext) VerifCounters() (int, int, int) {
+	pc.RLock()
+	defer pc.RUnlock()
+	return pc.allocations, pc.reservations, pc.placeholderAllocations
+}
+
+// VerifCleanup runs the partition manager cleanup (queues and expired apps) once.
+func (pc *PartitionContext) VerifCleanup() {
+	pc.partitionManager.cleanQueues(pc.root)
+	pc.cleanupExpiredApps()
+}
+
+// VerifForeignKeys returns the keys of the foreign allocations tracked by the partition.
+func (pc *PartitionContext) VerifForeignKeys() []string {
+	pc.RLock()
+	defer pc.RUnlock()
+	keys := make([]string, 0, len(pc.foreignAllocs))
+	for k := range pc.foreignAllocs {
+		keys = append(keys, k)
+	}
+	return keys
+}
